@@ -21,8 +21,34 @@ type ackSite struct {
 	emptyAck bool      // dominated by len(requests)==0
 }
 
+// commitWorkerBody: the function that processes one commit batch – commitWorker itself, or the
+// same-package function its loop body was moved into (the one that calls applyRequests).
+func commitWorkerBody(c *Ctx) *ssa.Function {
+	cw := c.Fn("", "DB.commitWorker")
+	if cw == nil {
+		return nil
+	}
+	apM := Named("NoKV.(*DB).applyRequests")
+	if len(Calls(cw, false, apM)) > 0 {
+		return cw
+	}
+	var body *ssa.Function
+	AllInstrs(cw, false, func(in ssa.Instruction) {
+		if ci, ok := in.(ssa.CallInstruction); ok && body == nil {
+			if h := StaticFn(ci.Common()); h != nil && h.Blocks != nil && FuncPkgPath(h) == FuncPkgPath(cw) && len(Calls(h, false, apM)) > 0 {
+				body = h
+			}
+		}
+	})
+	if body != nil {
+		c.Touch(body)
+		return body
+	}
+	return cw
+}
+
 func ackSites(c *Ctx) (*ssa.Function, []ackSite) {
-	fn := c.Fn("", "DB.commitWorker")
+	fn := commitWorkerBody(c)
 	if fn == nil {
 		return nil, nil
 	}
